@@ -33,6 +33,16 @@ class Facts:
 
     # ------------------------------------------------------------------ local scopes
     def local_names(self, fi: FunctionInfo) -> Set[str]:
+        if not hasattr(self, "_ln_cache"):
+            self._ln_cache = {}
+        got = self._ln_cache.get(id(fi.node))
+        if got is not None:
+            return got
+        got = self._local_names(fi)
+        self._ln_cache[id(fi.node)] = got
+        return got
+
+    def _local_names(self, fi: FunctionInfo) -> Set[str]:
         names = set()
         a = fi.node.args
         for x in a.posonlyargs + a.args + a.kwonlyargs:
